@@ -185,5 +185,28 @@ for rate in (1, 5):
             if (a['status'], a['message'], a['expected'], a['actual']) != (b['status'], b['message'], b['expected'], b['actual']):
                 fail({'what': 'dedicated-process verdict differs from the in-process verdict of the recording alone', 'position': k, 'sequence': [SHAPE_OF[i] for i in ids],
                       'recycle_rate': rate, 'dedicated': a, 'alone_in_process': b})
-print(json.dumps({'bound': '5 recordings of 4 shapes x all sequences of length <= 3 x 6 behaviour scenarios in-process + 3 sequences x 2 recycle rates in dedicated-process mode', 'cases': n}))
+# C13: a run abandoned at ANY point (before the first comparison was requested, after one, after two) leaves no worker process behind
+import multiprocessing
+import time
+for consumed in (0, 1, 2):
+    for how in ('close', 'drop'):
+        ids = [IDS[0], IDS[1], IDS[3]]; n += 1
+        CURRENT[:] = []
+        cfg = CompareExecutionConfig(compare_in_dedicated_process=True, compare_process_recycle_rate=5, compare_process_timeout=60)
+        gen = make_equalizer(ids, TapeRecorder(cassette), cfg).run_comparison()
+        for _ in range(consumed):
+            next(gen)
+        if how == 'close':
+            gen.close()
+        del gen
+        t0 = time.time()
+        while multiprocessing.active_children() and time.time() - t0 < 15:
+            time.sleep(0.05)
+        left = multiprocessing.active_children()
+        if left:
+            for p_ in left:
+                p_.terminate()
+            fail({'what': 'a comparison run abandoned by its consumer left its worker process running', 'comparisons_consumed_before_abandoning': consumed,
+                  'abandoned_by': 'generator.close()' if how == 'close' else 'dropping the last reference', 'workers_left': len(left)})
+print(json.dumps({'bound': '3 abandonment points x close / drop in dedicated-process mode + 5 recordings of 4 shapes x all sequences of length <= 3 x 6 behaviour scenarios in-process + 3 sequences x 2 recycle rates in dedicated-process mode', 'cases': n}))
 sys.exit(0)
